@@ -130,6 +130,142 @@ def gen_window_cases(ctx, model, rng, quick):
     return cases, info
 
 
+# ---------------------------------------------------------------------------------------------------------------
+# MONITOR-ONLY pass (harness/C24/dtor.cpp; no model, no step correspondence): the pools hold a value type whose
+# constructor and destructor each perform one instrumented atomic store, so construction / destruction of the pooled
+# object is a scheduling point, and the harness keeps an ownership record per address (HELD by t from the return of
+# allocate, DEALLOC by t from the call of deallocate to its return, with "destructor done").  Violation: allocate() returns an
+# object that another thread holds, that another thread's deallocate() has not destroyed yet, or that is not alive; a
+# destructor / constructor runs on an object another thread holds.  (bounded_vyukov_queue_pool runs neither constructor
+# nor destructor: only the hand-out-while-held rule applies to it.)
+# Cases: small programs x uniform / bursty schedules (pass 1), then implementation-guided windows around deallocate:
+# the run is replayed up to each access of a deallocating thread (the destructor's store, every access of the queue
+# push), that thread is stalled there, another thread runs long enough for a whole allocate(), then the rest.
+WHAT_DTOR = "a pool made an object available (or handed it out) before deallocate() was done with it: allocate() returned an object that another thread's deallocate() has not finished destroying / that another thread holds / that is already destroyed, or a destructor ran on an object another thread holds (ownership record of harness/C24/dtor.cpp; value type with an instrumented constructor and destructor)"
+DTOR_PROGRAMS = [
+    # lazy pool: an allocate racing with a release refills from the very object being released
+    [[[1], [2, 0]], [[1]]],
+    [[[1], [2, 0], [1]], [[1], [2, 0]]],
+    [[[1], [2, 0]], [[1], [2, 0]], [[1]]],
+    [[[1], [1], [2, 0], [2, 0]], [[1], [1]]],
+    [[[1], [2, 0], [1], [2, 0]], [[1], [2, 0], [1]], [[1], [1]]],
+]
+
+
+def dtor_base_cases(rng, n):
+    cases = []
+    for i in range(n):
+        prog = DTOR_PROGRAMS[i % len(DTOR_PROGRAMS)] if i < 2 * len(DTOR_PROGRAMS) else None
+        if prog is None:
+            nt = 2 + rng.below(2)
+            prog = []
+            for t in range(nt):
+                ops = []
+                for _ in range(1 + rng.below(3)):
+                    ops += [[1], [2, rng.below(3)]] if rng.chance(2, 3) else [[1]]
+                prog.append(ops)
+        kind = 1 if rng.chance(3, 5) else rng.choice([0, 2])       # mostly the lazy pool (objects come back through the queue only)
+        cap = rng.choice([2, 2, 4])
+        nt = len(prog)
+        nops = sum(len(t) for t in prog)
+        k = i % 3
+        if k == 0:      # one thread after the other: every later thread finds what the earlier ones released
+            sched = []
+            for t in range(nt):
+                sched += [t] * (14 * len(prog[t]) + 4)
+        else:
+            sched = q07.rand_sched(rng, nt, k - 1, 10 * nops + rng.below(30))
+        cases.append({"id": "d%d" % i, "cfg": [cap, kind, 1 if rng.chance(1, 3) else 0], "threads": prog, "sched": sched})
+    return cases
+
+
+def dtor_windows(rng, case, lines, limit):
+    """implementation-guided windows of one run: stall a deallocating thread after each of its accesses"""
+    steps = []          # (tid, inside a deallocate?) of every scheduled step
+    inside = {}
+    for l in lines:
+        t = l.split(" ")
+        if len(t) < 2:
+            continue
+        if t[1] == "ev":
+            if len(t) > 2 and t[2] == "inv_dealloc": inside[t[0]] = True
+            elif len(t) > 2 and t[2] == "ret_dealloc": inside[t[0]] = False
+            continue
+        steps.append((int(t[0]), inside.get(t[0], False)))
+    nt = len(case["threads"])
+    pts = [k for k, (tid, ins) in enumerate(steps) if ins]
+    # also the step right before a deallocate's first access (stalled at the entry of deallocate)
+    out = []
+    for k in pts:
+        v = steps[k][0]
+        for a in range(nt):
+            if a == v:
+                continue
+            for upto in (k, k + 1):         # stalled right before / right after this access
+                sched = [x[0] for x in steps[:upto]] + [a] * 30 + [v] * 40
+                out.append({"id": "%s_w%d_%d_%d" % (case["id"], upto, v, a), "cfg": case["cfg"], "threads": case["threads"], "sched": sched, "window": True})
+    if len(out) > limit:
+        out = conc_windows.subsample(rng, out, limit)
+    return out
+
+
+def run_dtor(ctx, impl, cases, tag):
+    cf = os.path.join(ctx.work, tag + ".txt")
+    conc_check.write_cases(cf, cases)
+    rc, out = vcheck.sh([impl, cf], timeout=600)
+    return rc, conc_check.parse_logs(out)
+
+
+def dtor_pass(ctx):
+    """-> info dict; reports violations through ctx"""
+    t0 = os.times()
+    impl = vcheck.cxx_build(os.path.join(vcheck.VERIF, "harness/C24/dtor.cpp"), os.path.join(ctx.work, "harness_dtor"), hook=True, link_cds=False)
+    rng = ctx.rng.fork()
+    quick = not ctx.thorough()
+    base = dtor_base_cases(rng, 40 if quick else 200)
+    rc1, logs1 = run_dtor(ctx, impl, base, "dtor_base")
+    wins = []
+    for c in base:
+        i = logs1.get(c["id"])
+        if i is not None and i["end"] == "finished":
+            wins += dtor_windows(rng, c, i["lines"], 6 if quick else 40)
+    rc2, logs2 = run_dtor(ctx, impl, wins, "dtor_win")
+    info = {"base_cases": len(base), "window_cases": len(wins), "ran": 0, "rejected": 0, "unfinished": 0, "by_kind": {}, "destructor_steps": 0,
+            "allocations_from_the_queue_while_another_deallocate_is_running": 0}
+    reported = False
+    for cases, logs, rc in ((base, logs1, rc1), (wins, logs2, rc2)):
+        for c in cases:
+            i = logs.get(c["id"])
+            if i is None or i["end"] is None:
+                if not reported:
+                    reported = True
+                    ctx.violation(WHAT_CRASH + " (monitor-only pass with an instrumented constructor / destructor)", {"case": {k: c[k] for k in ("cfg", "threads", "sched")}, "harness": "harness/C24/dtor.cpp", "exit_status": rc})
+                break
+            info["ran"] += 1
+            info["by_kind"][c["cfg"][1]] = info["by_kind"].get(c["cfg"][1], 0) + 1
+            if i["end"] != "finished":
+                info["unfinished"] += 1
+            # how often the window is really open: an allocate returns while another thread is inside deallocate
+            inside = set()
+            for l in i["lines"]:
+                t = l.split(" ")
+                if len(t) > 2 and t[1] == "ev":
+                    if t[2] == "inv_dealloc": inside.add(t[0])
+                    elif t[2] == "ret_dealloc": inside.discard(t[0])
+                    elif t[2] == "ret_alloc" and (inside - {t[0]}):
+                        info["allocations_from_the_queue_while_another_deallocate_is_running"] += 1
+            bad = [x for x in i["extra"] if x.startswith("monitor bad")]
+            if bad:
+                info["rejected"] += 1
+                ctx.violation(WHAT_DTOR, {"case": {k: c[k] for k in ("cfg", "threads", "sched")}, "harness": "harness/C24/dtor.cpp", "pool_kind": {0: "vyukov_queue_pool", 1: "lazy_vyukov_queue_pool", 2: "bounded_vyukov_queue_pool"}.get(c["cfg"][1]),
+                                          "monitor": bad, "impl_log": i["lines"], "window_case": bool(c.get("window"))})
+    t1 = os.times()
+    info["cpu_s"] = round((t1.user + t1.system + t1.children_user + t1.children_system) - (t0.user + t0.system + t0.children_user + t0.children_system), 1)
+    ctx.log("destructor monitor pass: %d cases (%d base + %d windows around deallocate), %d allocations completed while another thread was inside deallocate, %d rejected, cpu %.1fs" % (
+        info["ran"], len(base), len(wins), info["allocations_from_the_queue_while_another_deallocate_is_running"], info["rejected"], info["cpu_s"]))
+    return info
+
+
 def run_batch(ctx, model, impl, cases, tag):
     cf = os.path.join(ctx.work, tag + ".txt")
     conc_check.write_cases(cf, cases)
@@ -189,7 +325,8 @@ def run(ctx):
     model = conc_check.build_model(ctx, "Extract_Pools.v")
     impl = vcheck.cxx_build(os.path.join(vcheck.VERIF, "harness/C24/main.cpp"), os.path.join(ctx.work, "harness"), hook=True, link_cds=False)
     trusted = vcheck.STD_TRUSTED + ["hook layer: khizmax_libcds_verif::atomic<T>, baton scheduler, event log (hooks/include)", "ocaml/conc_main.ml event printer",
-                                    "checks/C24.py: log normalisation and the ownership-map monitor (failing-input search only)"]
+                                    "checks/C24.py: log normalisation and the ownership-map monitor (failing-input search only)",
+                                    "harness/C24/dtor.cpp: value type with an instrumented constructor / destructor and the per-address ownership record (monitor-only pass)"]
     assumptions = ["sequential consistency: memory_order arguments are not modelled", "compare_exchange_weak never fails spuriously under the hook",
                    "clients deallocate only objects they hold, once (the property's notion of holder)",
                    "heap allocation returns an address that is not in use (fresh object numbers in the model)",
@@ -201,6 +338,18 @@ def run(ctx):
         if c is None:
             ctx.log("replay file carries no case"); return ctx.finish(trusted, assumptions)
         c["id"] = "replay"
+        if rp.get("harness") == "harness/C24/dtor.cpp":
+            # a case of the monitor-only pass: re-run it on the instrumented-destructor harness
+            dimpl = vcheck.cxx_build(os.path.join(vcheck.VERIF, "harness/C24/dtor.cpp"), os.path.join(ctx.work, "harness_dtor"), hook=True, link_cds=False)
+            rc_d, logs_d = run_dtor(ctx, dimpl, [c], "dtor_replay")
+            i = logs_d.get("replay")
+            badl = [x for x in (i["extra"] if i else []) if x.startswith("monitor bad")]
+            ctx.log("replay (destructor monitor pass): %s" % ("REJECTED %s" % badl if badl else ("no output (exit status %s)" % rc_d if i is None or i["end"] is None else "accepted")))
+            if badl:
+                ctx.violation(WHAT_DTOR + " (replay)", {"case": c, "harness": "harness/C24/dtor.cpp", "monitor": badl, "impl_log": i["lines"]})
+            elif i is None or i["end"] is None:
+                ctx.violation(WHAT_CRASH + " (replay, monitor-only pass)", {"case": c, "harness": "harness/C24/dtor.cpp", "exit_status": rc_d})
+            return ctx.finish(trusted, assumptions)
         mlog, ilog = run_batch(ctx, model, impl, [c], "replay")
         i = ilog.get("replay"); m = mlog.get("replay")
         bad = impl_bad(c, i, m)
@@ -328,6 +477,7 @@ def run(ctx):
             ctx.violation("step correspondence between LV.Model.Pools and cds/memory/vyukov_queue_pool.h no longer holds",
                           {"correspondence": "Model/Pools.v vs cds::memory::vyukov_queue_pool / lazy_vyukov_queue_pool / bounded_vyukov_queue_pool / pool_allocator",
                            "case": {k: c[k] for k in ("cfg", "threads", "sched")}, "first_divergence": d}, no_input=True)
+    dinfo = dtor_pass(ctx)
     if not res.ok:
         ctx.violation("Coq obligations of C24 do not check: %s" % (res.failed[:2],), {"theorem": [f[2] for f in res.failed], "errors": res.failed[:3]}, no_input=True)
     ctx.coverage.update({
@@ -336,6 +486,7 @@ def run(ctx):
         "distinct_event_logs": len(shapes), "impl_steps_compared": steps, "diverged": diverged, "corpus_cases": ncorpus,
         "traces_validated_against_impl": len(cases) - not_run - diverged, "histograms": hist,
         "window_schedules": winfo,
+        "destructor_monitor_pass": dinfo,
         "impl_runs_rejected_by_oracle": nbad, "cases_not_run_after_repeated_hangs": not_run,
         "samples": [{k: c[k] for k in ("id", "cfg", "threads", "sched")} for c in (cases[ncorpus:ncorpus + 2] + stalls[:1] + wcases[:1])],
         "modelled": "cds::memory::vyukov_queue_pool / lazy_vyukov_queue_pool / bounded_vyukov_queue_pool ::allocate, ::deallocate over the Vyukov queue model; pool_allocator forwards",
